@@ -50,8 +50,10 @@ def exhaustive(ctx, out):
         for _ in range(3000):
             maps_.append(C01.rand_map(rng, 8)[1])
     reqs, meta = [], []
-    for tempo in maps_:
+    for mi, tempo in enumerate(maps_):
         be = C01.build_bpm_events(res, tempo)
+        if mi % 2 == 1:
+            be = C01.rebuilt_publicly(be)  # a map a client assembled itself answers the same
         last = tempo[-1][0]
         for tick in list(range(-1, min(last, 10) + 3)) + [last - 1, last, last + 1, last + 100]:
             for h in (range(0, len(tempo) + 2) if len(tempo) <= 6 else [0, 1, 2, len(tempo) - 10, len(tempo) - 9, len(tempo) - 2, len(tempo) - 1, len(tempo)]):
@@ -237,6 +239,19 @@ def slice(ctx: fw.Ctx) -> fw.Outcome:
 
 
 def replay(ctx: fw.Ctx, data: dict):
+    if data.get("op") == "hint":
+        tempo = [tuple(t) for t in data["tempo"]]
+        g = gov(tempo, data["tick"])
+        for be in (C01.build_bpm_events(data["res"], tempo), C01.rebuilt_publicly(C01.build_bpm_events(data["res"], tempo))):
+            try:
+                ts, idx = be.timestamp_at_tick(data["tick"], start_iteration_index=data["hint"])
+                got = (ts // US, idx)
+            except ValueError:
+                got = "VE"
+            ok = (got == "VE") if (g is None or data["hint"] > g) else (got != "VE" and got[1] == g and got[0] == be.timestamp_at_tick(data["tick"])[0] // US)
+            if not ok:
+                return True, str(got)
+        return False, "as promised"
     if data.get("op") == "switches":
         import json
         import subprocess
